@@ -21,7 +21,7 @@ use std::time::Duration;
 
 pub const LETTERS: &[&str] = &[
     "valid", "unparseable", "handler-err", "handler-panic", "handler-panic-typed-payload", "read-err", "read-eof", "half-sent", "write-err@0", "write-err@head", "write-err@body", "short-write", "flush-err", "stall-then-send",
-    "req:no-slash-target", "req:content-length-a", "req:suffix-range-too-long", "req:multipart-non-utf8", "req:multipart-no-name", "req:many-ranges-4mib", "req:head", "req:options", "req:content-length-unallocatable",
+    "req:no-slash-target", "req:content-length-a", "req:suffix-range-too-long", "req:multipart-non-utf8", "req:multipart-no-name", "req:many-ranges-4mib", "req:head", "req:options", "req:content-length-unallocatable", "req:percent-before-multibyte",
 ];
 
 const FAST: Duration = Duration::from_millis(1500);
@@ -41,6 +41,7 @@ fn request_of(letter: &str) -> Vec<u8> {
         "req:multipart-no-name" => drive::request_bytes("POST", "/form-multipart-enctype-post-method", "HTTP/1.1", &[("Content-Type", "multipart/form-data; boundary=XB")], b"--XB\r\nContent-Disposition: attachment\r\n\r\nv\r\n--XB--\r\n"),
         "req:many-ranges-4mib" => drive::get("/four-mib.bin", &[("Range", &format!("bytes={}", vec!["0-0"; 600].join(",")))]),
         "req:content-length-unallocatable" => drive::request_bytes("POST", "/form-url-encoded-enctype-post-method", "HTTP/1.1", &[("Host", "localhost"), ("Content-Type", "application/x-www-form-urlencoded"), ("Content-Length", "9223372036854775807")], b"a=b"),
+        "req:percent-before-multibyte" => drive::get("/form-get-method?name=50%a\u{20ac}&x=%\u{20ac}", &[("Host", "localhost")]),
         "req:head" => drive::request_bytes("HEAD", "/file.txt", "HTTP/1.1", &[("Host", "localhost")], b""),
         "req:options" => drive::request_bytes("OPTIONS", "/file.txt", "HTTP/1.1", &[("Origin", "https://a"), ("Access-Control-Request-Method", "GET")], b""),
         _ => valid_request(),
